@@ -204,6 +204,39 @@ Proof.
     + discriminate.
 Qed.
 
+Lemma bad_from_le_struct : forall modes g n, bad_from modes n g = true -> bad_struct_from modes n g = true.
+Proof.
+  intros modes g. induction g as [e|i o nx IH|nm ts IH] using graph_ind2; intros n H;
+    cbn [bad_from bad_struct_from] in *.
+  - discriminate.
+  - destruct (match o with Some o0 => n =? ol_layer o0 | None => false end); [|exact H].
+    apply andb_true_iff in H as [_ H]. now apply IH.
+  - exact H.
+Qed.
+
+Theorem generate_filtered_struct_total : forall a fs ks,
+  wf_problem a fs = true -> typed_full (generate_filtered_struct a fs ks).
+Proof.
+  intros a fs ks WF. destruct (to_iteration_graphs_wf _ _ WF) as [NI NM].
+  unfold generate_filtered_struct, generate_from, typed_full.
+  destruct (output_modes a fs) as [modes|] eqn:EM; [|contradiction].
+  destruct (best_of (filter_good_struct modes (to_iteration_graphs a fs))) as [g| | |] eqn:EB; auto.
+  - destruct (best_of_in _ _ EB) as [gs [Er Hin]].
+    destruct (to_iteration_graphs a fs) as [gs0| |] eqn:E0; simpl in Er; try discriminate.
+    injection Er as <-. apply filter_In in Hin as [Hin NB]. apply negb_true_iff in NB.
+    assert (NB' : graph_bad modes g = false).
+    { unfold graph_bad, graph_bad_struct in *. destruct (bad_from modes 0 g) eqn:B; [|reflexivity].
+      apply bad_from_le_struct in B. congruence. }
+    pose proof (to_iteration_graphs_complete _ _ _ _ E0 EM) as C. rewrite Forall_forall in C.
+    destruct (C _ Hin) as [T G].
+    pose proof (generate_all_no_write T modes g ks G).
+    pose proof (generate_all_not_bad modes g ks NB').
+    destruct (generate_all modes g ks) as [u|[|]]; auto; contradiction.
+  - exfalso. destruct (to_iteration_graphs a fs) as [gs0| |]; simpl in EB; try contradiction.
+    + destruct (filter _ gs0); discriminate.
+    + discriminate.
+Qed.
+
 (** tensor_method *)
 Theorem tensor_method_outcomes_typed_partial : forall a fs,
   wf_problem a fs = true ->
@@ -211,4 +244,14 @@ Theorem tensor_method_outcomes_typed_partial : forall a fs,
 Proof.
   intros a fs WF. unfold tensor_method.
   destruct (forallb _ _); [left; now apply generate_outcomes_typed_partial | right; reflexivity].
+Qed.
+
+(** the RuntimeError site is unreachable for EVERY graph of the enumeration, not only the first *)
+Theorem write_assignment_unreachable : forall a fs gs modes g ks,
+  to_iteration_graphs a fs = ROk gs -> output_modes a fs = Some modes -> In g gs ->
+  generate_all modes g ks <> WFail FWriteAssignment.
+Proof.
+  intros a fs gs modes g ks E EM Hin.
+  pose proof (to_iteration_graphs_complete _ _ _ _ E EM) as C. rewrite Forall_forall in C.
+  destruct (C _ Hin) as [T G]. eapply generate_all_no_write; eauto.
 Qed.
